@@ -3,4 +3,6 @@ EXTENDS Lexer
 Alpha11 == {" ", "\t", "-", ":", "q", "#", "a", "1", ".", "e", "+"}
 Alpha9  == {" ", "\t", "-", ":", "q", "#", "a", "1", "."}
 Alpha8  == {" ", "-", ":", "q", "#", "a", "1", "e"}
+\* long random lines (simulation): no exponent letters, so every numeral is in range whatever its length
+AlphaSim == {" ", "\t", "-", ":", "q", "#", "a", "b", "1", "0", ".", "/", ","}
 =============================================================================
